@@ -44,7 +44,7 @@ OPTS = [("breaks", True), ("breaks", False), ("xhtmlOut", False), ("xhtmlOut", T
 
 
 def floors(tier):
-    return dict(_floors0(tier), **{'env_observer.renders': 150, 'env_observer.env_nonempty': 60, 'order.documents': 2000})
+    return dict(_floors0(tier), **{'env_observer.renders': 150, 'env_observer.env_nonempty': 60, 'order.documents': 1000})
 
 
 def _floors0(tier):
